@@ -841,7 +841,7 @@ def build_cases(tier, seed):
                       'full_qubit_alphabet_products_up_to_n': full_product_bound(tier), 'generic_atoms': n_atoms(tier),
                       'integer_seeds_per_point': 4 if quick else 16}
     # ---- B: sequences of two different subsets, both orders
-    n_seq = 4 if quick else 5
+    n_seq = 4 if quick else 6
     for n in range(2, n_seq + 1):
         for S in all_subsets(n)[:-1]:
             cases.append({'kind': 'seq', 'n': n, 'A': list(S)})
